@@ -16,6 +16,7 @@ RealS = z3.RealSort()
 KindS, (K_ABSENT, K_FILE, K_DIR) = z3.EnumSort('Kind', ['Absent', 'File', 'Dir'])
 
 EXC_CLASSES = [
+    'BaseException', 'KeyboardInterrupt',     # KeyboardInterrupt stands for every non-Exception
     'Exception', 'RuntimeError', 'TypeError', 'ValueError', 'KeyError', 'AttributeError',
     'IndexError', 'EOFError', 'ZlibError',
     'OSError', 'FileNotFoundError', 'IsADirectoryError', 'NotADirectoryError', 'FileExistsError',
@@ -24,7 +25,8 @@ EXC_CLASSES = [
     'UserError',        # any Exception subclass that is none of the above
 ]
 EXC_PARENT = {
-    'Exception': None, 'RuntimeError': 'Exception', 'TypeError': 'Exception',
+    'BaseException': None, 'KeyboardInterrupt': 'BaseException',
+    'Exception': 'BaseException', 'RuntimeError': 'Exception', 'TypeError': 'Exception',
     'ValueError': 'Exception', 'KeyError': 'Exception', 'AttributeError': 'Exception',
     'IndexError': 'Exception', 'EOFError': 'Exception', 'ZlibError': 'Exception',
     'OSError': 'Exception', 'FileNotFoundError': 'OSError', 'IsADirectoryError': 'OSError',
